@@ -205,3 +205,14 @@ prop("C10", "exploration", (200, 4000),
      technique="deterministic simulation: STARK lookup workloads with single-value faults on looking side, looked side, frequencies and filters; direct multiset oracle",
      text="Seeded exploration of STARK column lookups in both directions with a multiset oracle that shares no code with the logUp argument.",
      note="Covers lookups inside one table (starky::lookup). Cross-table lookups (starky::cross_table_lookup: get_ctl_data / CtlCheckVars / verify_cross_table_lookups) are NOT yet exercised by this check; helper and running-sum columns are computed inside the prover and cannot be corrupted through the API.")
+
+prop("C06", "exploration", (48, 1200),
+     rule="one run = one aggregator scenario: an inner circuit (seeded program, recursion-compatible configuration: Poseidon, with/without lookups and zero-knowledge, 1-3 challenges, arities, 2-8 queries, cap heights) "
+          "and an outer circuit (add_virtual_proof_with_pis + verify_proof + re-exposed public inputs; Poseidon or Keccak outer configuration) built once; a case = one inner proof handed to the aggregator: "
+          "the honest proof; ~24 (thorough 60) element faults and 4 list faults over all proof components (caps, openings, query-round leaves / siblings / coset evaluations, commit caps, final polynomial, pow witness, public inputs); "
+          "proofs of false statements from the Byzantine prover (cell faults); single-check proofs from the strategy hooks H1 (all-zero accumulator), H2 (quotient altered for each challenge index), H4 (grinding witness), H5 (final polynomial). "
+          "Oracle: native verify(proof).is_ok()  <=>  the library's own set_proof_with_pis_target + set_verifier_data_target + witness generation succeed AND the independent statement checker is satisfied on the outer witness; "
+          "for the first agreeing accept the outer proof is also proved, verified and its public inputs compared with the inner ones. distinct = (scenario, inner proof fault); non-trivial = the inner proof differs from the honest one (or is the honest one)",
+     technique="deterministic simulation: aggregator node fed valid, faulted and single-check inner proofs; the native verifier is the reference model for the in-circuit verifier",
+     text="Seeded exploration of the in-circuit verifier against the native verifier as reference model, with inner proofs that fail exactly one native check so that a check missing only in the circuit version is not masked.",
+     note="Outer acceptance is decided by witness generation + the statement checker SAT (which trusts the gates' eval_filtered); one outer proof per scenario is fully proved and verified. Inner circuits are kept <= 2^9 rows and <= 8 queries so that the outer circuit stays at 2^10-2^12 rows.")
